@@ -129,8 +129,8 @@ pub fn splay_steps() -> u64 {
 }
 
 fn history_budget(steps: usize, universe: i32) -> u64 {
-    let len = (universe as u64 + 8).min(steps as u64 + 16) + 8;
-    64 * len * (steps as u64 + 8) + 8 * len * len
+    let len = (universe as u64 + 8).min(steps as u64 * 4 + 16) + 8;
+    64 * len * (steps as u64 * 4 + 8) + 8 * len * len
 }
 
 pub fn random_history(rng: &mut Rng, steps: usize, universe: i32, st: &mut SplayStats, log: &mut Vec<String>) -> Result<(), String> {
@@ -285,8 +285,11 @@ fn random_history_inner(rng: &mut Rng, steps: usize, universe: i32, st: &mut Spl
             85..=87 => {
                 tag = "extend";
                 st.op(tag);
-                let n = rng.below(6) as i32;
-                let items: Vec<(i32, i32)> = (0..n).map(|i| (rng.below(universe as u64) as i32, stamp * 10 + i)).collect();
+                // mostly short batches, sometimes a long one (dozens of items) in which keys repeat with different values:
+                // the last value for a key must win, as in the reference map
+                let n = if rng.below(4) == 0 { rng.range(20, 70) as i32 } else { rng.below(6) as i32 };
+                let span = if n > 6 && rng.below(2) == 0 { (universe as u64).min(7) } else { universe as u64 };
+                let items: Vec<(i32, i32)> = (0..n).map(|i| (rng.below(span) as i32, stamp * 100 + i)).collect();
                 t.extend(items.iter().map(|(a, b)| (Tracked::new(*a), Tracked::new(*b))));
                 for (a, b) in items {
                     m.insert(a, b);
